@@ -30,6 +30,9 @@ var (
 	zzWritten  []interface{}
 	zzReadMode int // 0 ok, 1 error, 2 EOF
 	zzVarID    string
+	// registration body fixed by a harness (RevCount may be a symbolic decimal string)
+	zzRegOverride     bool
+	zzRegHost, zzRegRev string
 	// the snapshot input most recently decoded (its Name stays symbolic)
 	zzLastSnapName *SnapshotInput
 )
@@ -70,6 +73,9 @@ func zzRead(a *api.ApiContext, obj interface{}) error {
 		in.RevCount = zzPick("in.rev", "", "5", "x")
 		in.RepType = zzPick("in.type", "Backend", "quorum", "")
 		in.RepState = zzPick("in.state", "closed", "rebuilding", "")
+		if zzRegOverride {
+			in.Address, in.UUID, in.RevCount, in.RepType, in.RepState = zzRegHost, "u-"+zzRegHost, zzRegRev, "Backend", "closed"
+		}
 	case *Replica:
 		in.Address = zzAddrPick("in.address")
 		in.Mode = zzPick("in.mode", "RW", "ERR", "WO", "")
